@@ -3,6 +3,6 @@
 # three properties at a time (each uses its own scratch worktree); one log per property
 src=$1; logs=$2; mkdir -p $logs
 props=$(ls $src | grep -o '^C[0-9][0-9]' | sort -u)
-run_prop() { p=$1; for d in $(ls -d $src/$p-* 2>/dev/null); do [ -f $d/patch.diff ] || continue; echo "=== $(basename $d)"; /verif/tools/seedtest.sh $d $p 2>&1 | cut -c1-260 | head -7; done > $logs/$p.log 2>&1; }
+run_prop() { p=$1; for d in $(ls -d $src/$p-* 2>/dev/null); do [ -f $d/patch.diff ] || continue; echo "=== $(basename $d)"; /verif/tools/seedtest.sh $d $p 2>&1 | cut -c1-260 | head -9; done > $logs/$p.log 2>&1; }
 export -f run_prop; export src logs
-echo $props | tr ' ' '\n' | xargs -P 3 -I{} bash -c 'run_prop {}'
+echo $props | tr ' ' '\n' | xargs -P ${PAR:-3} -I{} bash -c 'run_prop {}'
